@@ -108,6 +108,8 @@ RespFails(r, e) ==
      \cup (IF slipped THEN {}
            ELSE IF ~e.hasAns THEN
                 Chk(e.src, extr = e.rcode /\ nodata /\ ~aa) \cup Chk("C04", ~tc)
+                \* C08 states it for every source of a FORMERR: "FORMERR is never replaced by any other RCODE"
+                \cup (IF e.rcode = 1 THEN Chk("C08", extr = 1) ELSE {})
            ELSE IF tc THEN Chk("C04", r.transport = "udp" /\ nodata)
            ELSE Chk(e.src, /\ extr = e.ans.rcode
                            /\ aa = e.ans.aa
@@ -122,7 +124,10 @@ RespFails(r, e) ==
 \* expectation vs recorded outcome for one choice of the server's clock
 FailsAt(r, now) ==
   LET e == Respond(r.req, r.transport, cfg, now) IN
-  IF r.out = "panic" THEN {"C01"}
+  \* a panic is C01's; where a response was due it is also a failure of the property that prescribes that response
+  \* (and of C09 / C10 when the response had to carry an OPT / a TSIG record)
+  IF r.out = "panic" THEN {"C01"} \cup (IF e.kind = "none" THEN {} ELSE
+                                          {e.src} \cup (IF e.edns THEN {"C09"} ELSE {}) \cup (IF e.tsig.mode # "none" THEN {"C10"} ELSE {}))
   ELSE IF e.kind = "none" THEN Chk("C03", r.out = "none")
   ELSE LET tooBig == e.tsig.mode # "none" /\
                      12 + (IF e.qecho THEN Len(QEcho(r.req)) ELSE 0) + (IF e.edns THEN 11 ELSE 0)
@@ -145,7 +150,11 @@ UdpVsTcp(r) ==
         u == DecodeMessage(r.resp)  t == DecodeMessage(r.tcp) IN
     /\ t.ok /\ Bit(t.flags, 512) = 0
     /\ u.ok
-    /\ IF Len(r.tcp) <= e.limit THEN r.resp = r.tcp
+    /\ IF Len(r.tcp) <= e.limit
+       THEN IF ~MentionsTsig(r.req) THEN r.resp = r.tcp
+            \* signed responses carry their own time and MAC: same sections, not truncated
+            ELSE /\ Bit(u.flags, 512) = 0 /\ Len(r.resp) = Len(r.tcp)
+                 /\ Plain(u.an) = Plain(t.an) /\ Plain(u.ns) = Plain(t.ns) /\ Plain(NoPseudo(u.ar)) = Plain(NoPseudo(t.ar))
        ELSE IF Bit(u.flags, 512) = 1 THEN TRUE
        ELSE /\ SameBag(Plain(u.an), Plain(t.an)) /\ SameBag(Plain(u.ns), Plain(t.ns))
             /\ Range(Plain(NoPseudo(u.ar))) \subseteq Range(Plain(NoPseudo(t.ar)))
